@@ -507,46 +507,42 @@ func runR084(c *core.Ctx) {
 			c.Unknown(rel, name, "handler closure", fd.Pos(), "not found")
 			continue
 		}
-		// statement containing the implementation call, then an `if` implying err != nil that returns newErrorResponsef(err, S>=400)
+		// a `return newErrorResponsef(err, S >= 400, …)` of the implementation's error on a branch where that error is known
+		// to be non-nil (if / else-if, early return, default clause of a switch on the error or on its type)
 		okWrap, why := false, "no conversion of the implementation's error into an error response"
-		for i, s := range lit.Body.List {
-			hasImpl := false
-			ast.Inspect(s, func(m ast.Node) bool {
-				if call, ok := m.(*ast.CallExpr); ok && isResourceCallback(inf, call, reqCtx, handlerT) {
-					hasImpl = true
-				}
-				return true
-			})
-			if !hasImpl || i+1 >= len(lit.Body.List) {
-				continue
-			}
-			ifs, ok := lit.Body.List[i+1].(*ast.IfStmt)
-			if !ok {
-				why = "the statement after the implementation call is not an error test"
-				continue
-			}
-			impliesErr := false
-			for _, f := range core.Decompose(ifs.Cond, true, nil) {
-				if e, nonNil, ok := core.NilTest(inf, f); ok && nonNil && core.IsErrorType(inf.Types[e].Type) {
-					impliesErr = true
-				}
-			}
-			if !impliesErr {
-				why = "the test after the implementation call does not imply err != nil"
-				continue
-			}
-			for _, bs := range ifs.Body.List {
-				if r, ok := bs.(*ast.ReturnStmt); ok && len(r.Results) == 1 {
-					if st, ok := statusOfErrorResponsef(inf, r.Results[0], errResp); ok {
-						call := core.Unparen(r.Results[0]).(*ast.CallExpr)
-						if st >= 400 && core.IsErrorType(inf.Types[call.Args[0]].Type) && !core.IsNil(inf, call.Args[0]) {
-							okWrap = true
-							why = fmt.Sprintf("wrapped with status %d", st)
-						} else {
-							why = fmt.Sprintf("wrapped with status %d / cause %s", st, core.ExprString(call.Args[0]))
-						}
+		lpar := core.Parents(lit)
+		var implErr types.Object
+		ast.Inspect(lit.Body, func(m ast.Node) bool {
+			if as, ok := m.(*ast.AssignStmt); ok && len(as.Rhs) == 1 {
+				if call, ok := core.Unparen(as.Rhs[0]).(*ast.CallExpr); ok && isResourceCallback(inf, call, reqCtx, handlerT) {
+					if o := core.ObjOf(inf, as.Lhs[len(as.Lhs)-1]); o != nil && core.IsErrorType(o.Type()) {
+						implErr = o
 					}
 				}
+			}
+			return true
+		})
+		for _, r := range core.ReturnsIn(lit.Body) {
+			if len(r.Results) != 1 {
+				continue
+			}
+			st, ok := statusOfErrorResponsef(inf, r.Results[0], errResp)
+			if !ok {
+				continue
+			}
+			call := core.Unparen(r.Results[0]).(*ast.CallExpr)
+			if implErr == nil || core.ObjOf(inf, call.Args[0]) != implErr {
+				continue
+			}
+			if st < 400 {
+				why = fmt.Sprintf("wrapped with status %d", st)
+				continue
+			}
+			if core.GuardedNonNil(inf, lpar, r, implErr) {
+				okWrap = true
+				why = fmt.Sprintf("wrapped with status %d", st)
+			} else {
+				why = "the conversion is not on a branch where the implementation's error is known to be non-nil"
 			}
 		}
 		c.Check(okWrap, rel, name, "implementation error is converted with newErrorResponsef(err, >=400)", lit.Pos(), why, why)
@@ -555,16 +551,54 @@ func runR084(c *core.Ctx) {
 	_, ed := mustDecl(c, rel, "newErrorResponsef")
 	errRespT, _ := mustObj(c, dataPkgRel(c), "ErrorResponse").(*types.TypeName)
 	pass := false
-	if len(ed.Body.List) > 0 {
-		if ifs, ok := ed.Body.List[0].(*ast.IfStmt); ok && ifs.Init != nil {
-			if as, ok := ifs.Init.(*ast.AssignStmt); ok && len(as.Rhs) == 1 {
-				if ta, ok := core.Unparen(as.Rhs[0]).(*ast.TypeAssertExpr); ok {
-					if n := namedOf(inf.Types[ta.Type].Type); n != nil && n.Obj() == errRespT && isParamOf(inf, ed, asVar(core.ObjOf(inf, ta.X))) {
-						for _, s := range ifs.Body.List {
-							if r, ok := s.(*ast.ReturnStmt); ok && len(r.Results) == 2 && core.ObjOf(inf, r.Results[1]) == core.ObjOf(inf, as.Lhs[0]) {
-								pass = true
-							}
-						}
+	// a `return nil, X` where X is the cause asserted to *ErrorResponse: the variable of a comma-ok assertion (returned
+	// under its ok flag) or the variable of a type-switch clause `case *ErrorResponse`
+	edpar := core.Parents(ed)
+	isErrResp := func(t types.Type) bool {
+		pt, ok := t.(*types.Pointer)
+		if !ok {
+			return false
+		}
+		n := namedOf(pt.Elem())
+		return n != nil && n.Obj() == errRespT
+	}
+	for _, r := range core.ReturnsIn(ed.Body) {
+		if len(r.Results) != 2 {
+			continue
+		}
+		xo := core.ObjOf(inf, r.Results[1])
+		if xo == nil || !isErrResp(xo.Type()) {
+			continue
+		}
+		// (a) comma-ok assertion of a parameter
+		ast.Inspect(ed.Body, func(m ast.Node) bool {
+			as, ok := m.(*ast.AssignStmt)
+			if !ok || len(as.Rhs) != 1 || len(as.Lhs) != 2 || core.ObjOf(inf, as.Lhs[0]) != xo {
+				return true
+			}
+			ta, ok := core.Unparen(as.Rhs[0]).(*ast.TypeAssertExpr)
+			if !ok || !isParamOf(inf, ed, asVar(core.ObjOf(inf, ta.X))) {
+				return true
+			}
+			okVar := core.ObjOf(inf, as.Lhs[1])
+			if core.GuardedByFact(inf, edpar, r, func(f core.Fact) bool {
+				id, isId := core.Unparen(f.Expr).(*ast.Ident)
+				return isId && f.Val && core.ObjOf(inf, id) == okVar
+			}, nil) {
+				pass = true
+			}
+			return true
+		})
+		// (b) the implicit variable of a type-switch clause on a parameter
+		for p := edpar[r]; p != nil && !pass; p = edpar[p] {
+			cc, ok := p.(*ast.CaseClause)
+			if !ok || inf.Implicits[cc] != xo {
+				continue
+			}
+			if body, ok := edpar[cc].(*ast.BlockStmt); ok {
+				if ts, ok := edpar[body].(*ast.TypeSwitchStmt); ok {
+					if subj := core.TypeSwitchSubject(ts); subj != nil && isParamOf(inf, ed, asVar(core.ObjOf(inf, subj))) {
+						pass = true
 					}
 				}
 			}
@@ -743,7 +777,172 @@ func runR086(c *core.Ctx) {
 	})
 	c.Check(usesHeader, rel, "IsErrorResponse", "decides by the ErrorResponseHeader constant", fd.Pos(), "", "the header constant the server sets is not the one read")
 	c.Check(statusGuard, rel, "IsErrorResponse", "HTTP status fills Status only when the body had none", fd.Pos(), "", "Status is overwritten without a Status == nil guard")
-	c.Check(unexpected && nilOnlyLast, rel, "IsErrorResponse", "non-2xx without the header yields UnexpectedStatusCodeError; nil only afterwards", fd.Pos(), "", fmt.Sprintf("unexpected-status return guarded=%v, nil only at the end=%v", unexpected, nilOnlyLast))
+	_, _ = unexpected, nilOnlyLast
+	// possible worlds over two atoms — H: the error header is "true"; S: the status is 2xx.  Every condition of the function
+	// is evaluated in each world (three-valued); a branch keeps the worlds in which its condition can hold.  Then:
+	//   return nil                          only in worlds with !H && S
+	//   return &UnexpectedStatusCodeError   only in worlds with !H && !S
+	//   return <*Error>                     only in worlds with H
+	var headerVar types.Object
+	isHeaderExpr := func(e ast.Expr) bool {
+		found := false
+		ast.Inspect(e, func(n ast.Node) bool {
+			if id, ok := n.(*ast.Ident); ok && inf.Uses[id] == errHeader {
+				found = true
+			}
+			return !found
+		})
+		return found
+	}
+	ast.Inspect(fd.Body, func(n ast.Node) bool {
+		if as, ok := n.(*ast.AssignStmt); ok && len(as.Lhs) == 1 && len(as.Rhs) == 1 && isHeaderExpr(as.Rhs[0]) {
+			if b, ok := inf.Types[as.Rhs[0]].Type.Underlying().(*types.Basic); ok && b.Kind() == types.Bool {
+				headerVar = core.ObjOf(inf, as.Lhs[0])
+			}
+		}
+		return true
+	})
+	const (
+		tT = 1
+		tF = 0
+		tU = 2
+	)
+	var eval func(e ast.Expr, h, s2 bool) int
+	eval = func(e ast.Expr, h, s2 bool) int {
+		b2i := func(b bool) int {
+			if b {
+				return tT
+			}
+			return tF
+		}
+		e = core.Unparen(e)
+		switch x := e.(type) {
+		case *ast.Ident:
+			if headerVar != nil && inf.Uses[x] == headerVar {
+				return b2i(h)
+			}
+		case *ast.UnaryExpr:
+			if x.Op == token.NOT {
+				switch eval(x.X, h, s2) {
+				case tT:
+					return tF
+				case tF:
+					return tT
+				}
+				return tU
+			}
+		case *ast.BinaryExpr:
+			switch x.Op {
+			case token.LAND:
+				l, r := eval(x.X, h, s2), eval(x.Y, h, s2)
+				if l == tF || r == tF {
+					return tF
+				}
+				if l == tT && r == tT {
+					return tT
+				}
+				return tU
+			case token.LOR:
+				l, r := eval(x.X, h, s2), eval(x.Y, h, s2)
+				if l == tT || r == tT {
+					return tT
+				}
+				if l == tF && r == tF {
+					return tF
+				}
+				return tU
+			case token.EQL, token.NEQ:
+				if isHeaderExpr(x.X) || isHeaderExpr(x.Y) {
+					// <header value> == "true"
+					for _, side := range []ast.Expr{x.X, x.Y} {
+						if cv := core.ConstOf(inf, side); cv != nil && cv.ExactString() == `"true"` {
+							return b2i(h == (x.Op == token.EQL))
+						}
+					}
+					return tU
+				}
+				// StatusCode/100 == 2
+				for i, side := range []ast.Expr{x.X, x.Y} {
+					other := []ast.Expr{x.Y, x.X}[i]
+					if cv := core.ConstOf(inf, other); cv != nil && cv.ExactString() == "2" {
+						if div, ok := core.Unparen(side).(*ast.BinaryExpr); ok && div.Op == token.QUO {
+							if d := core.ConstOf(inf, div.Y); d != nil && d.ExactString() == "100" {
+								if sel, ok := core.Unparen(div.X).(*ast.SelectorExpr); ok && sel.Sel.Name == "StatusCode" {
+									return b2i(s2 == (x.Op == token.EQL))
+								}
+							}
+						}
+					}
+				}
+			}
+		}
+		return tU
+	}
+	worlds := [4][2]bool{{false, false}, {false, true}, {true, false}, {true, true}}
+	var wrong []string
+	nRet := map[string]int{}
+	core.NewFlow(c.M, inf, fd.Body).Run(&core.Automaton{
+		Init: 15,
+		Node: func(st int, n ast.Node) int {
+			r, ok := n.(*ast.ReturnStmt)
+			if !ok || len(r.Results) != 1 {
+				return st
+			}
+			kind := ""
+			e := core.Unparen(r.Results[0])
+			switch {
+			case core.IsNil(inf, e):
+				kind = "nil"
+			default:
+				t := inf.Types[e].Type
+				if pt, ok := t.(*types.Pointer); ok {
+					if nn := namedOf(pt.Elem()); nn != nil {
+						switch nn.Obj().Name() {
+						case "UnexpectedStatusCodeError":
+							kind = "unexpected"
+						case "Error":
+							kind = "resterror"
+						}
+					}
+				}
+			}
+			if kind == "" {
+				return st // an I/O error from reading the body
+			}
+			nRet[kind]++
+			for w := 0; w < 4; w++ {
+				if st&(1<<uint(w)) == 0 {
+					continue
+				}
+				h, s2 := worlds[w][0], worlds[w][1]
+				okWorld := (kind == "nil" && !h && s2) || (kind == "unexpected" && !h && !s2) || (kind == "resterror" && h)
+				if !okWorld {
+					wrong = append(wrong, fmt.Sprintf("%s: returns %s although header=%v 2xx=%v is possible here", c.M.Position(r.Pos()), map[string]string{"nil": "nil", "unexpected": "an UnexpectedStatusCodeError", "resterror": "a Rest.li Error"}[kind], h, s2))
+				}
+			}
+			return st
+		},
+		Edge: func(st int, facts []core.Fact) (int, bool) {
+			for _, f := range facts {
+				if f.Tag != nil {
+					continue
+				}
+				for w := 0; w < 4; w++ {
+					if st&(1<<uint(w)) == 0 {
+						continue
+					}
+					v := eval(f.Expr, worlds[w][0], worlds[w][1])
+					if (v == tT && !f.Val) || (v == tF && f.Val) {
+						st &^= 1 << uint(w)
+					}
+				}
+			}
+			return st, st != 0
+		},
+	})
+	c.Check(len(wrong) == 0 && nRet["nil"] > 0 && nRet["unexpected"] > 0 && nRet["resterror"] > 0, rel, "IsErrorResponse", "non-2xx without the header yields UnexpectedStatusCodeError; nil only afterwards", fd.Pos(),
+		fmt.Sprintf("returns: nil %d, unexpected-status %d, Rest.li error %d — each only in the worlds it belongs to", nRet["nil"], nRet["unexpected"], nRet["resterror"]),
+		strings.Join(dedupe(wrong), "; ")+fmt.Sprintf(" (returns found: nil %d, unexpected-status %d, Rest.li error %d)", nRet["nil"], nRet["unexpected"], nRet["resterror"]))
 	// Client.Do returns nil response with the error
 	_, do := mustDecl(c, rel, "(*Client).Do")
 	isErr := mustFunc(c, rel, "IsErrorResponse")
